@@ -63,6 +63,8 @@ const ALPHABETS: &[[&str; 16]] = &[
     ["let", "type", "=", "in", "{", "}", "[", "]", ",", ".", ":", "x", "A", "\"s\"", "|", "->"],
     // do / attributes / implicits / operators / forall
     ["let", "=", "in", "do", "@", "?", "#[", "]", "(", ")", "x", "A", "forall", ".", ":", "+"],
+    // macro applications (import! / lift_io! / convert_effect!) with explicit, implicit, string and path arguments
+    ["import!", "lift_io!", "convert_effect!", "?", "x", "std", ".", "int", "\"f.glu\"", "(", ")", "1", "let", "=", "in", "lift"],
 ];
 
 const CHARS: &[char] = &[
